@@ -1,7 +1,9 @@
 """C11 — evolution strategies: theorems (Props/C11.lean) about strategy-parameter formulas regenerated from the C++
 (translate/cma_params.py -> Gen/CMAParams.lean) and about the models Model/CMA.lean, Model/ES.lean; correspondence K-C11 between
-the models (driver drv_c11) and the real CMA, ElitistCMA, CMSA, CrossEntropyMethod, SimplexDownhill; independent per-step oracle
-on CMA, CMSA, ElitistCMA, VD-CMA, CrossEntropyMethod and SimplexDownhill (7 runs per case incl. a re-initialised used object)."""
+the models (driver drv_c11) and the real CMA, ElitistCMA, CMSA, VD-CMA, CrossEntropyMethod, SimplexDownhill; independent per-step oracle
+on CMA, CMSA, ElitistCMA, VD-CMA, CrossEntropyMethod and SimplexDownhill (9 runs per case incl. a re-initialised used object and an
+object used on another problem before), over the cross product of the configuration axes of every class' public interface (global / private
+generator, every init overload, setters before / after init / in the middle of a run)."""
 import os, re, struct, subprocess, time
 from concurrent.futures import ThreadPoolExecutor
 from vlib import core
@@ -25,25 +27,39 @@ MANIFEST = dict(
         "(3) Every comparison-based strategy (Model/ES.lean Strategy: sample, evaluate, stable-sort selection, update from the selected; instance: cross-entropy method): generic_rank_invariance, generic_value_is_f. "
         "(4) ElitistCMA::step with CMAChromosome::updateAsOffspring/updateAsParent: ecma_sigma_pos, ecma_pSucc_unit, ecma_elitist_monotone (real three-way success rule with the history of accepted values: the reported value never increases "
         "and the point changes only with it), active_update_admissible (the shortened unlearning rate keeps (1+r)-r|z|^2>0 for every z), ecma_factor_valid. "
-        "(5) remora's Cholesky rank-one update (CMSA, ElitistCMA): cholUpdate_diag_pos / cholUpdate_valid (whenever the update returns, the factor has a positive diagonal again, for every alpha>0, any beta, any v), cmsa_factor_valid, cmsa_sigma_pos. "
-        "(6) cem_variance_nonneg; SimplexDownhill: simplex_best_monotone(_run), simplex_value_is_f. "
+        "(5) remora's Cholesky rank-one update (CMSA, ElitistCMA): cholUpdate_diag_pos / cholUpdate_valid (whenever the update returns, the factor has a positive diagonal again, for every alpha>0, any beta, any v), cmsa_factor_valid, cmsa_sigma_pos, cmsa_step_rank_invariant (selection on phi o f picks the same offspring; the update never reads the fitness). "
+        "(5b) VD-CMA (Model/ES.lean vdUpdate = VDCMA::updateStrategyParameters with computeSAndTFirst/Second, constants from the regenerated formulas): vd_sigma_pos, vd_step_rank_invariant (selection on phi o f picks the same offspring, the update never reads the fitness). " "(6) cem_variance_nonneg; SimplexDownhill: simplex_best_monotone(_run), simplex_value_is_f, simplexInit_honest + simplex_value_is_f_run (value consistency of whole runs from init, every objective; init as repaired for F16, the pinned init is simplexInitMagic with an agreement theorem and a witness of its failure). "
+        "(7) Configuration axes, universally quantified: ecmaInit_invariant + ecma_elitist_monotone_run / _prefix (whole ElitistCMA runs from init, any number of steps, BOTH settings of activeUpdate(): the reported value never gets worse), "
+        "ecma_accepted_monotone (with penalties, i.e. a feasibility box: the accepted penalized fitness never increases), ecma_step_rank_invariant / ecma_rank_invariance (whole ElitistCMA runs on phi o f with the same samples visit the same points with the same step sizes and factors, every order-preserving phi, both activeUpdate settings; classify_relabel: the three-way success rule only compares), clamp_pos_any / sigma_pos_any_bound (sigma_pos for EVERY CMA::setLowerBound value, zero and negative included), "
+        "cemNoise_nonneg / cem_variance_nonneg_any_noise (every CrossEntropyMethod::setNoiseType configuration, every generation). "
         "Tie, on every run: all strategy constants of CMA/CMSA/VD-CMA/ElitistCMA/LM-CMA objects initialised through their public interface are compared bit for bit with the Float instance of the regenerated formulas; "
-        "CMA::updatePopulation, ElitistCMA::step, CMSA::updatePopulation and CrossEntropyMethod's update are re-computed step by step by the models from the real run's own state and samples (one-step refinement; ECMA/CMSA/CEM bit-identical, CMA bit-identical or 1e-9 behind BLAS/eigensolver); "
+        "CMA::updatePopulation, ElitistCMA::step, CMSA::updatePopulation, VDCMA::updateStrategyParameters and CrossEntropyMethod's update are re-computed step by step by the models from the real run's own state and samples (one-step refinement; ECMA/CMSA/CEM bit-identical, CMA and VD-CMA bit-identical or 1e-9 behind BLAS/eigensolver/remora kernels); "
         "whole SimplexDownhill runs are re-computed from the starting point (objective evaluated in Lean) and compared bit for bit. "
         "Independent oracle on the real CMA (all recombination types, user-set lambda from 2 to 200 incl. lambda >> n), CMSA, ElitistCMA, VD-CMA, CrossEntropyMethod (user-set population / selection / variance), SimplexDownhill, n from 1 to 60, after init and after every step: "
-        "sigma>0 finite; covariance symmetric + own Cholesky (CMA) / valid Cholesky factor (CMSA, ElitistCMA) / D finite non-zero, v finite, |v|>0 (VD-CMA) / variance finite >=0 (CEM); mean and paths finite; weights positive, non-increasing, sum 1; learning rates in range; "
-        "value = f(closest feasible point) bit-exact; 7 runs per case with the same seed: fresh, fresh, RE-INITIALISED used object, and f rescaled by 2, 1/8 and a piecewise-linear exact map (identical points and step sizes); elitist variants monotone; best <= every simplex vertex; sphere convergence for all six methods."),
-  note=TRUST + "not modelled (inputs of the models): the random variates and the eigendecomposition of MultiVariateNormalDistribution::update; VD-CMA's updateStrategyParameters has no Lean model (constants regenerated and compared, update covered by the oracle only; "
-       "generic_rank_invariance applies to any update function but VD-CMA's is not tied); cov_update_psd is stated on Mathlib matrices, the list-based covUpdate of the executable model is the same formula but the two are not formally connected; "
+        "sigma>0 finite; covariance symmetric (1e-9 relative + 1e-16 absolute, F13) + own Cholesky of the symmetric part (C+C^T)/2, failing only on a pivot that is certifiably negative (below -64 n eps C_ii; pivots within rounding of zero are counted as undecided) (CMA) / valid Cholesky factor (CMSA, ElitistCMA) / D finite non-zero, v finite, |v|>0 (VD-CMA) / variance finite >=0 (CEM); mean and paths finite; weights positive, non-increasing, sum 1; learning rates in range; "
+        "value = f(closest feasible point) bit-exact; 9 runs per case with the same seed: fresh, fresh, RE-INITIALISED used object, an object first USED ON ANOTHER PROBLEM (other dimension, smaller or larger, other start and seed, per-run state overwritten through the after-init setters) and then initialised, "
+        "and f rescaled by 2, 1/8, a piecewise-linear exact map and by 2^340 (objective values beyond 1e100; identical points and step sizes); a share of the cases runs on the objective scaled by 2^340 from the start; elitist variants monotone (ElitistCMA: reported value without a box; penalized fitness of every newly accepted parent, read from the individual, with and without a box); best <= every simplex vertex; sphere convergence for all six methods "
+        "(generator kind, init overload, activeUpdate and recombination type drawn at random). "
+        "CONFIGURATION SWEEP (oracle on the real code, labelled as such; every run, both tiers): the cross product of the configuration axes of each class' public interface, each cell a run case with all oracles above (~460 cells in the quick tier, x4 in the thorough tier): "
+        "CMA {global | private generator} x {init(f,p) | init(f) with proposed start | init(f,points) | init(f,p,lambda,mu,sigma[,C0 none/diagonal/dense])} x {no setter | setLambda+setMu | setLambda only | setMu only} x 3 recombination types x {default | setLowerBound(positive, 0, negative)}; "
+        "CMSA the same generator / init / setter axes x setInitialSigma; ElitistCMA generator x 3 short inits x activeUpdate {untouched, false, true} x sigma() x {no box | feasibility box with default / custom constrainedPenaltyFactor()}; "
+        "VD-CMA generator x 4 inits x {default | setInitialSigma | setSigma after init} x lambda() changed after init; CrossEntropyMethod 4 inits x {default | setVariance(double) | variance vector} x {no | ConstantNoise | LinearNoise} x population/selection size changed after init; SimplexDownhill 3 inits; "
+        "setters called in the MIDDLE of a run (activeUpdate toggled, sigma(), setLowerBound, setSigma, lambda(), setVariance, population sizes). "
+        "Every optimizer object is constructed in storage pre-filled with a byte pattern that differs between the runs of a case, so a member that neither constructor nor init sets has different garbage in the two fresh runs (uninitialised-member slips show as same-seed-different-run or a UBSan report). " "Determinism with a private generator is tested with random::globalRng in a DIFFERENT state in each of the 9 runs (a draw from the wrong generator changes the run), with the global generator it is seeded identically. "
+        "The model traces cover the same axes where they change the update: activeUpdate on/off and a feasibility box (Ecma model), lower bound (carried in the trace header) and initial covariance (CMA model), initial covariance (CMSA), noise type / variance vector / resized population (CEM; cemNoise in Model/ES.lean), every init overload (simplex); "
+        "the strategy constants are compared with the regenerated formulas under every construction mode / init overload / setter combination."),
+  note=TRUST + "not modelled (inputs of the models): the random variates and the eigendecomposition of MultiVariateNormalDistribution::update; VD-CMA: the model vdUpdate is tied by one-step refinement (mostly within the 1e-9 tolerance, the inner products and norms go through remora's kernels), but that D stays free of zeros and v finite (validity of D(I+vv^T)D) is oracle-only; cov_update_psd is stated on Mathlib matrices, the list-based covUpdate of the executable model is the same formula but the two are not formally connected; "
        "cholUpdate_diag_pos proves validity of the returned factor, not that L'L'^T equals alpha*LL^T+beta*vv^T; simplex rank invariance and CEM/simplex convergence are oracle-only; the noise-handling branch of CMA::step (function.isNoisy()) is outside the property (deterministic objective); "
-       "ElitistSelection uses std::sort (unstable beyond 16 elements): generations with tied fitness among more than 16 offspring are counted, not compared; convergence on the sphere is numerical (value <= 1e-10 within the budget; CEM: 1e-6 and dimension <= 2 only, because the noise-free cross-entropy method with 10 of 100 parents converges prematurely in higher dimension: n=5, seed 862289 stalls at 3.6e-3). "
-       "Known findings on the unchanged tree (known_findings.json, findings_proposed/C11.md): F14 VD-CMA learning rates negative for n<5 and zero for n=5 (patch C11-F14-vdcma-correction-floor.patch, validated) and its consequence F12 (VD-CMA turns NaN after stagnating), "
+       "ElitistSelection uses std::sort (unstable beyond 16 elements): generations with tied fitness among more than 16 offspring are counted, not compared; convergence on the sphere is numerical (value <= 1e-10 within the budget; CEM: 1e-6 and dimension 1 only, because the noise-free cross-entropy method with 10 of 100 parents converges prematurely in higher dimension: n=5, seed 862289 stalls at 3.6e-3; n=2, seed 680299 from (3, 2.5) stalls at 1.1e-2, about 1 run in 400). "
+       "That a run with a private generator does not depend on random::globalRng, and the equivalence of per-run state after init of a used object, have no model-level content (the models take the variates as inputs) and are decided by the oracle on the real code only. "
+       "Known findings on the unchanged tree (known_findings.json, findings_proposed/C11.md): F17 CMA with a population >= 10 n that has converged exactly keeps collapsing C until the stability clamp divides by zero (sigma = inf, then the eigensolver throws; thorough tier, corpus f17; no validated patch); F16 SimplexDownhill::init starts from the magic best value 1e100, so on objectives with values beyond 1e100 (the 2^340 rescaling) the reported pair is stale until a value below 1e100 is seen "
+       "(patch C11-F16-simplex-init-best.patch, validated; Model/ES.lean simplexInit is the repaired init -- simplexInit_honest, simplex_value_is_f_run hold without hypothesis -- and simplexInitMagic the pinned one, with simplexInitMagic_eq_of_small and the witness simplexInitMagic_not_honest_witness); F14 VD-CMA learning rates negative for n<5 and zero for n=5 (patch C11-F14-vdcma-correction-floor.patch, validated) and its consequence F12 (VD-CMA turns NaN after stagnating), "
        "F13 the CMA covariance matrix drifts away from symmetry (oracle tolerance 1e-9*sqrt(CiiCjj)+1e-16), F15 CMA with a feasibility box whose optimum lies on the boundary and a large population loses positive definiteness of C and the eigensolver throws (thorough tier; corpus f15). CMA traces do not start at |x0| ~ 1e6 (cancellation in x - mean exceeds the 1e-9 tolerance of the C comparison; such starts are kept in the run cases). Observations (not violations of C11 as stated): CMA/CMSA rank offspring by unpenalizedFitness, so the PenalizingEvaluator penalty never influences selection; LMCMA.h does not compile and LMCMA::step always throws; CMAChromosome::roundUpdate deviates from the paper by a factor c_cov.",
   technique="Lean 4 proofs (induction over generations and over the columns of the Cholesky factor, stable-sort congruence, Mathlib PosSemidef) about regenerated formulas and hand-written models + differential correspondence and property oracle on the C++ (ASan/UBSan)",
   design="§6 C11, §14")
 FINISH = dict(level="proof",
               rule="coefficient cases: (class, n, lambda, mu, recombination) incl. the defaults; run cases: objective (sphere | integer strictly convex quadratic | Rosenbrock | plateau | constant, optional soft box) x optimizer x population class x initial step size x x0 class x seed x steps, "
-                   "each executed 7 times inside the harness (2x fresh, re-initialised used object, 3 rescalings); trace cases: CMA / ElitistCMA / CMSA / CEM steps re-computed by the models, whole simplex runs; non-trivial = at least 5 steps")
+                   "each executed 9 times inside the harness (2x fresh, re-initialised used object, object used on another problem before, 4 rescalings); configuration cells: the cross product of the construction / init / setter axes of each class (gen_axis_cases), one run case per cell; trace cases: CMA / ElitistCMA / CMSA / VD-CMA / CEM steps re-computed by the models, whole simplex runs; non-trivial = at least 5 steps")
 
 
 def fb(x):
@@ -55,6 +71,7 @@ def nums(xs):
 
 
 INF = float("inf")
+HUGE_SCALE = 2.0 ** 340        # objective values beyond 1e100 (exact, order preserving)
 SOFTBOX_OK = ("cma", "cmsa")      # rank by the unpenalized fitness; see gen_opt
 
 
@@ -131,8 +148,141 @@ def gen_opt(r, n, boxed, kinds=None):
     return kind, "opt %s %s" % (kind, nums([lam, mu, r.below(3), sigma])), pc
 
 
+def optline(kind, lam=0, mu=0, recomb=2, sigma=0.0, **opts):
+    """`opt` line with the configuration options of harness/c11.cpp (None values are left out = the class' default)"""
+    o = " ".join("%s=%s" % (k, v) for k, v in opts.items() if v is not None)
+    return ("opt %s %s %s" % (kind, nums([lam, mu, recomb, sigma]), o)).strip()
+
+
+def popset(r, kind, which):
+    """(lambda, mu, set=) for the four ways to use setLambda / setMu"""
+    if which == "default":
+        return 0, 0, None
+    if which == "both":
+        lam = r.range(4, 14); return lam, r.range(1, lam - 1), None
+    if which == "lambda":        # mu = suggestMu(lambda) (cma: lambda/4 for EQUAL) | lambda/4 (cmsa): lambda >= 4 keeps mu >= 1
+        return r.range(4, 16), 0, "lambda"
+    # default lambda is >= 5 (cma) / 4n (cmsa), also for the dimension of the pre-use problem
+    return 0, r.range(1, 3), "mu"
+
+
+def axis_objective(r, boxes):
+    ops, n, kind, box = gen_objective(r, allow_box=boxes, dims=[1, 2, 2, 3, 3, 4, 5])
+    x0, xc = gen_x0(r, n, box)
+    while xc in ("huge",):
+        x0, xc = gen_x0(r, n, box)
+    if r.chance(1, 8):
+        ops.append("scale " + fb(HUGE_SCALE))
+    return ops, n, box, x0
+
+
+def gen_axis_cases(r, maxsteps):
+    """the cross product of the configuration axes of every strategy's public interface (construction with the global or a
+    private generator x every init overload x which population setters are used x recombination type x options that act after
+    init ...); objective, start, seed, sizes and number of steps are drawn at random for each cell.  Every cell is a `run`
+    case, i.e. it gets all oracles (9 runs)."""
+    out = []
+    def add(objops, oline, x0, steps, cell):
+        out.append((objops + [oline, "run %d %d %s %s" % (r.range(1, 10 ** 6), steps, fb(INF), nums(x0))], cell))
+    RNG = (None, "private")
+    SHORT = (None, "propose", "points")
+    # --- CMA: 2 x (3 x 4 + 3) x 3 x 2 = 180 cells
+    for rng in RNG:
+        for init, extra in [(i, ps) for i in SHORT for ps in ("default", "both", "lambda", "mu")] + [("full", c) for c in (None, "diag", "dense")]:
+            for recomb in (0, 1, 2):
+                for lb in (None, "set"):
+                    ops, n, box, x0 = axis_objective(r, True)
+                    if init == "full":
+                        lam, mu, st = popset(r, "cma", r.choice(["default", "both"])); cov = extra
+                    else:
+                        lam, mu, st = popset(r, "cma", extra); cov = None
+                    lbv = None if lb is None else fb(r.choice([2.0 ** -10, 1.0, 1e-10, 0.0, -1.0, 2.0 ** -4]))
+                    add(ops, optline("cma", lam, mu, recomb, r.choice([0, 0, 0.5, 2.0]), rng=rng, init=init, set=st, cov0=cov, lb=lbv),
+                        x0, r.range(3, maxsteps), "cma:rng=%s,init=%s,pop=%s,lb=%s" % (rng, init, extra, lb))
+    # --- CMSA: 2 x (3 x 4 + 3) x 2 = 60 cells
+    for rng in RNG:
+        for init, extra in [(i, ps) for i in SHORT for ps in ("default", "both", "lambda", "mu")] + [("full", c) for c in (None, "diag", "dense")]:
+            for sg in (0, 1):
+                ops, n, box, x0 = axis_objective(r, True)
+                if init == "full":
+                    lam, mu, st = popset(r, "cmsa", r.choice(["default", "both"])); cov = extra
+                else:
+                    lam, mu, st = popset(r, "cmsa", extra); cov = None
+                add(ops, optline("cmsa", lam, mu, 2, r.choice([0.5, 2.0, 2.0 ** -6]) if sg else 0, rng=rng, init=init, set=st, cov0=cov),
+                    x0, r.range(3, maxsteps), "cmsa:rng=%s,init=%s,pop=%s" % (rng, init, extra))
+    # --- ElitistCMA: 2 x 3 x 3 x 2 x 2 = 72 cells; with a feasibility box acceptance is on the penalized fitness (the harness
+    #     then checks monotonicity of the accepted penalized fitness instead of the reported value, and skips the rescalings)
+    for rng in RNG:
+        for init in SHORT:
+            for active in (None, 0, 1):
+                for sg in (0, 1):
+                    for boxed in (False, True):
+                        ops, n, box, x0 = axis_objective(r, False)
+                        pen = None
+                        if boxed:
+                            lo = [-(r.choice([1, 2, 4]) / r.choice([1, 2])) for _ in range(n)]
+                            hi = [(r.choice([1, 2, 4]) / r.choice([1, 2])) for _ in range(n)]
+                            ops.append("softbox %s %s" % (nums(lo), nums(hi)))
+                            x0 = [lo[i] + (hi[i] - lo[i]) * r.range(0, 8) / 8 for i in range(n)]
+                            pen = r.choice([None, fb(1.0), fb(1e-3), fb(1e6)])
+                        add(ops, optline("ecma", 0, 0, 0, r.choice([0.5, 2.0, 2.0 ** -6]) if sg else 0, rng=rng, init=init, active=active, penalty=pen),
+                            x0, r.range(12, 4 * maxsteps), "ecma:rng=%s,init=%s,active=%s,box=%s" % (rng, init, active, boxed))
+    # --- VD-CMA: 2 x 4 x 3 x 2 = 48 cells
+    for rng in RNG:
+        for init in SHORT + ("full",):
+            for sig in (None, "pre", "post"):
+                for pl in (None, "set"):
+                    ops, n, box, x0 = axis_objective(r, True)
+                    lam, mu = (0, 0)
+                    if init == "full" and r.chance(1, 2):
+                        lam = r.range(4, 14); mu = r.range(1, lam - 1)
+                    add(ops, optline("vdcma", lam, mu, 2, 0 if sig is None else r.choice([0.5, 2.0, 2.0 ** -6]), rng=rng, init=init,
+                                     sig="post" if sig == "post" else None, plambda=None if pl is None else r.range(max(mu + 1, 6), 20)),
+                        x0, r.range(3, maxsteps), "vdcma:rng=%s,init=%s,sigma=%s,plambda=%s" % (rng, init, sig, pl))
+    # --- cross-entropy method (no generator argument: always the global one): 4 x 3 x 3 x 2 = 72 cells
+    for init in SHORT + ("full",):
+        for var in (None, "scalar", "vec"):
+            for noise in (None, "const", "lin"):
+                for post in (None, "set"):
+                    ops, n, box, x0 = axis_objective(r, True)
+                    lam, mu = (0, 0)
+                    if init == "full" and r.chance(2, 3):
+                        lam = r.range(6, 30); mu = r.range(2, lam - 1)
+                    nz = None
+                    if noise == "const": nz = "const:" + fb(r.choice([0.25, 2.0 ** -10, -1.0, 0.0]))
+                    if noise == "lin": nz = "lin:%s:%s" % (fb(r.choice([1.0, 0.5, 0.0])), fb(r.choice([-0.25, -2.0 ** -4, 2.0 ** -6])))
+                    pp = r.range(8, 40) if post else None
+                    add(ops, optline("cem", lam, mu, 0, r.choice([1.0, 4.0, 0.25]) if var else 0, init=init, var=var if var == "vec" or var == "scalar" else None,
+                                     noise=nz, ppop=pp, psel=r.range(2, min(pp - 1, 8)) if post else None),
+                        x0, r.range(3, maxsteps), "cem:init=%s,var=%s,noise=%s,post=%s" % (init, var, noise, post))
+    # --- setters called in the middle of a run (all runs of a case call them before the same step)
+    for rng in RNG:
+        for kind, mids in (("ecma", ("active:0", "active:1", "sigma")), ("cma", ("lb",)), ("vdcma", ("sigma", "pop")), ("cem", ("var", "pop"))):
+            if kind == "cem" and rng: continue
+            for m in mids:
+                for active in ((0, 1) if kind == "ecma" else (None,)):
+                    ops, n, box, x0 = axis_objective(r, kind != "ecma")
+                    steps = r.range(8, 3 * maxsteps)
+                    k = r.range(1, steps)
+                    if m == "sigma": m2 = "sigma:" + fb(r.choice([0.5, 2.0, 2.0 ** -8, 8.0]))
+                    elif m == "lb": m2 = "lb:" + fb(r.choice([2.0 ** -10, 1.0, 0.0, 2.0 ** -4]))
+                    elif m == "var": m2 = "var:" + fb(r.choice([1.0, 2.0 ** -8, 64.0]))
+                    elif m == "pop": m2 = "pop:%d:%d" % ((lambda l: (l, r.range(2, l - 1)))(r.range(8, 30)))
+                    else: m2 = m
+                    add(ops, optline(kind, 0, 0, r.below(3) if kind == "cma" else 2, 0, rng=rng, active=active, mid="%d:%s" % (k, m2)),
+                        x0, steps, "%s:rng=%s,mid=%s" % (kind, rng, m))
+    # --- simplex downhill: the three ways to start
+    for init in SHORT:
+        for _ in range(2):
+            ops, n, box, x0 = axis_objective(r, False)
+            add(ops, ("opt simplex init=%s" % init) if init else "opt simplex", x0, r.range(3, 3 * maxsteps), "simplex:init=%s" % init)
+    return out
+
+
 def gen_run_case(r, maxsteps):
     ops, n, kind, box = gen_objective(r)
+    if r.chance(1, 10):
+        ops.append("scale " + fb(HUGE_SCALE))
     okind, oline, pc = gen_opt(r, n, box is not None)
     ops.append(oline)
     x0, xc = gen_x0(r, n, box)
@@ -172,13 +322,28 @@ def gen_conv_case(r, steps):
     kind = r.choice(["cma", "cma", "cmsa", "ecma", "vdcma", "cem", "simplex"])
     n = r.choice([1, 2, 3, 4, 5]) if kind != "vdcma" else r.choice([2, 3, 4, 5, 6, 8])
     if kind == "cem":
-        n = r.choice([1, 2])    # 10 parents of 100: the maximum-likelihood variance collapses before the mean arrives in higher dimension
-                                # (n=5, seed 862289: stalls at 3.6e-3 after 600 steps) -- premature convergence inherent to the method without noise
+        n = 1                   # 10 parents of 100: the maximum-likelihood variance collapses before the mean arrives in higher dimension
+                                # (n=5, seed 862289: stalls at 3.6e-3 after 600 steps; n=2, seed 680299, start (3, 2.5): stalls at 1.1e-2; a plain
+                                # re-implementation of the method stalls above 1e-6 in about 1 of 400 runs for n=2 and in 0 of 400 for n=1)
+                                # -- premature convergence inherent to the method without noise
     budget = {"cma": steps, "cmsa": steps, "vdcma": 2 * steps, "ecma": 12 * steps, "cem": steps, "simplex": 3 * steps}[kind]
     # CEM converges linearly to the precision of its variance estimate; the default variance 100 needs more steps
     target = {"cem": 1e-6}.get(kind, 1e-10)
     x0 = [r.range(-16, 16) / 4 for _ in range(n)]
-    return ["obj sphere %d" % n, "opt " + kind, "run %d %d %s %s" % (r.range(1, 10 ** 6), budget, fb(target), nums(x0))]
+    # convergence under the non-default configurations too: private generator, every short init overload, plain (1+1)-CMA-ES
+    # without the active update, the three recombination types with the default population sizes
+    rng = r.choice([None, "private"]) if kind not in ("cem", "simplex") else None
+    init = r.choice([None, None, "propose", "points"])
+    oline = "opt " + kind
+    if kind == "ecma":
+        oline = optline("ecma", 0, 0, 0, 0, rng=rng, init=init, active=r.choice([None, 0, 1]))
+    elif kind == "cma":
+        oline = optline("cma", 0, 0, r.below(3), 0, rng=rng, init=init)
+    elif kind in ("cmsa", "vdcma"):
+        oline = optline(kind, 0, 0, 2, 0, rng=rng, init=init)
+    elif init:
+        oline += " init=" + init
+    return ["obj sphere %d" % n, oline, "run %d %d %s %s" % (r.range(1, 10 ** 6), budget, fb(target), nums(x0))]
 
 
 def gen_trace_case(r, maxsteps):
@@ -196,6 +361,80 @@ def gen_trace_case(r, maxsteps):
         x0, xc = gen_x0(r, n, box)
     ops.append("cmatrace %d %d %s" % (r.range(1, 10 ** 6), r.range(1, maxsteps), nums(x0)))
     return ops
+
+
+def gen_axis_traces(r, steps):
+    """one-step refinement by the Lean models over the configuration axes that change what the update computes or consumes:
+    activeUpdate on/off (Ecma model), setLowerBound and an initial covariance (CMA model), initial covariance (CMSA model),
+    noise type / variance vector / population sizes changed after init (CEM model), each with both kinds of generator and
+    every init overload"""
+    out = []
+    inits = [None, "propose", "points"]
+    for active in (None, 0, 1):
+        for rng in (None, "private"):
+            ops, n, kind, box = gen_objective(r, allow_box=False)
+            ops.append(optline("ecma", 0, 0, 0, r.choice(SIGMAS), active=active, rng=rng, init=r.choice(inits)))
+            ops.append("ecmatrace %d %d %s" % (r.range(1, 10 ** 6), r.range(8, 3 * steps), nums(gen_x0(r, n, None)[0])))
+            out.append(ops)
+    for active in (0, 1):      # with a feasibility box the offspring's penalized and unpenalized fitness differ (both are inputs of the model)
+        ops, n, kind, box = gen_objective(r, allow_box=False)
+        lo = [-(r.choice([1, 2, 4]) / r.choice([1, 2])) for _ in range(n)]
+        hi = [(r.choice([1, 2, 4]) / r.choice([1, 2])) for _ in range(n)]
+        ops.append("softbox %s %s" % (nums(lo), nums(hi)))
+        ops.append(optline("ecma", 0, 0, 0, r.choice([0, 1.0, 2.0]), active=active, rng=r.choice([None, "private"]), penalty=r.choice([None, fb(1.0), fb(1e3)])))
+        ops.append("ecmatrace %d %d %s" % (r.range(1, 10 ** 6), r.range(8, 3 * steps), nums([lo[i] + (hi[i] - lo[i]) * r.range(0, 8) / 8 for i in range(n)])))
+        out.append(ops)
+    for lb in (None, 2.0 ** -10, 1.0, 0.0):
+        for init, cov in ((None, None), ("propose", None), ("full", None), ("full", "diag"), ("full", "dense")):
+            ops, n, kind, box = gen_objective(r)
+            lam, mu = (0, 0) if r.chance(1, 2) else (lambda l: (l, r.range(1, l - 1)))(r.range(3, 12))
+            ops.append(optline("cma", lam, mu, r.below(3), r.choice([0, 0.5, 1.0]), init=init, cov0=cov, lb=None if lb is None else fb(lb),
+                               rng=r.choice([None, "private"])))
+            x0, xc = gen_x0(r, n, box)
+            while xc == "huge":
+                x0, xc = gen_x0(r, n, box)
+            ops.append("cmatrace %d %d %s" % (r.range(1, 10 ** 6), r.range(2, steps), nums(x0)))
+            out.append(ops)
+    for rng in (None, "private"):
+        for init, cov in ((None, None), ("points", None), ("full", None), ("full", "diag"), ("full", "dense"), ("full", "scaled")):
+            ops, n, kind, box = gen_objective(r)
+            lam, mu, st = popset(r, "cmsa", r.choice(["default", "both"] if init == "full" else ["default", "both", "lambda", "mu"]))
+            ops.append(optline("cmsa", lam, mu, 2, r.choice([0, 0.5, 2.0]), init=init, cov0=cov, rng=rng, set=st))
+            ops.append("cmsatrace %d %d %s" % (r.range(1, 10 ** 6), r.range(2, steps), nums(gen_x0(r, n, box)[0])))
+            out.append(ops)
+    for noise in (None, "const", "lin"):
+        for var in (None, "scalar", "vec"):
+            for post in (None, "set"):
+                ops, n, kind, box = gen_objective(r, allow_box=False)
+                init = r.choice(inits + ["full"])
+                lam, mu = (0, 0)
+                if init == "full" and r.chance(2, 3):
+                    lam = r.range(6, 30); mu = r.range(2, lam - 1)
+                nz = None
+                if noise == "const": nz = "const:" + fb(r.choice([0.25, 2.0 ** -10, -1.0]))
+                if noise == "lin": nz = "lin:%s:%s" % (fb(r.choice([1.0, 0.5, 0.0])), fb(r.choice([-0.25, -2.0 ** -4, 2.0 ** -6])))
+                pp = r.range(8, 40) if post else None
+                ops.append(optline("cem", lam, mu, 0, r.choice([1.0, 4.0, 0.25]) if var else 0, init=init, var=var, noise=nz, ppop=pp,
+                                   psel=r.range(2, min(pp - 1, 8)) if post else None))
+                ops.append("cemtrace %d %d %s" % (r.range(1, 10 ** 6), r.range(2, steps), nums(gen_x0(r, n, None)[0])))
+                out.append(ops)
+    for rng in (None, "private"):
+        for init in inits + ["full"]:
+            for sig in (None, "pre", "post"):
+                ops, n, kind, box = gen_objective(r, dims=[2, 2, 3, 4, 5, 6, 8])
+                lam, mu = (0, 0)
+                if init == "full" and r.chance(1, 2):
+                    lam = r.range(4, 24); mu = r.range(1, lam - 1)
+                ops.append(optline("vdcma", lam, mu, 2, 0 if sig is None else r.choice([0.5, 2.0, 2.0 ** -6]), rng=rng, init=init,
+                                   sig="post" if sig == "post" else None, plambda=r.choice([None, None, r.range(max(mu + 1, 6), 24)])))
+                ops.append("vdcmatrace %d %d %s" % (r.range(1, 10 ** 6), r.range(2, steps), nums(gen_x0(r, n, box)[0])))
+                out.append(ops)
+    for init in inits:
+        ops, n, kind, box = gen_objective(r, allow_box=False)
+        ops.append(("opt simplex init=%s" % init) if init else "opt simplex")
+        ops.append("simplexrun %d %s" % (r.range(1, 3 * steps), nums(gen_x0(r, n, None)[0])))
+        out.append(ops)
+    return out
 
 
 def gen_model_traces(r, quick):
@@ -219,6 +458,12 @@ def gen_model_traces(r, quick):
         ops.append(oline)
         ops.append("cemtrace %d %d %s" % (r.range(1, 10 ** 6), r.range(2, steps // 3), nums(gen_x0(r, n, None)[0])))
         out.append(ops)
+    for _ in range(k):
+        ops, n, kind, box = gen_objective(r)
+        _, oline, _ = gen_opt(r, n, False, kinds=["vdcma"])
+        ops.append(oline)
+        ops.append("vdcmatrace %d %d %s" % (r.range(1, 10 ** 6), r.range(2, steps // 2), nums(gen_x0(r, n, box)[0])))
+        out.append(ops)
     for _ in range(2 * k):
         ops, n, kind, box = gen_objective(r, allow_box=False)
         ops.append("opt simplex")
@@ -236,20 +481,50 @@ def gen_coeff_case(r):
     return ["coeffs %s %d %d %d %d" % (kind, n, lam, r.choice([1, lam - 1, r.range(1, lam - 1)]), r.below(3))]
 
 
+def gen_coeff_axis_cases(r):
+    """the strategy constants must be the regenerated formulas under every construction mode and init overload (a long
+    overload that forgets the recombination type, a setter path that computes mu differently, ...)"""
+    out = []
+    for kind in ("cma", "cmsa", "vdcma", "ecma"):
+        for rng in (None, "private"):
+            for init in (None, "propose", "points", "full"):
+                for st in ("default", "both", "lambda"):
+                    if kind == "ecma" and (init == "full" or st != "default"): continue
+                    if kind == "vdcma" and st == "lambda": continue
+                    if kind == "vdcma" and st == "both" and init != "full": continue     # VD-CMA has no population setters: sizes only through the long overload
+                    if init == "full" and st == "lambda": continue
+                    n = r.choice(list(range(1, 13)) + [20, 50])
+                    rec = r.below(3)
+                    lam, mu = 0, 0
+                    if st == "both":
+                        lam = r.choice([2, 3, r.range(2, 40), r.range(41, 200)]); mu = r.choice([1, lam - 1, r.range(1, lam - 1)])
+                    elif st == "lambda":
+                        lam = r.range(4, 60)
+                        mu = lam // 4 if (kind == "cmsa" or rec == 0) else lam // 2      # CMSA::init / CMA::suggestMu
+                    o = " ".join("%s=%s" % (k, v) for k, v in (("rng", rng), ("init", init), ("set", "lambda" if st == "lambda" else None)) if v)
+                    out.append([("coeffs %s %d %d %d %d %s" % (kind, n, lam, mu, rec, o)).strip()])
+    return out
+
+
 def case_info(ops):
-    info = {"opt": "?", "obj": "?", "n": 0, "box": False, "kind": "coeffs", "steps": 0, "lambda": 0}
+    info = {"opt": "?", "obj": "?", "n": 0, "box": False, "kind": "coeffs", "steps": 0, "lambda": 0, "options": {}, "scale": 1.0}
     for o in ops:
         t = o.split()
         if t[0] == "obj": info["obj"], info["n"] = t[1], int(t[2])
         elif t[0] in ("box", "softbox"): info["box"] = True
+        elif t[0] == "scale": info["scale"] = struct.unpack("<d", struct.pack("<Q", int(t[1][1:], 16)))[0]
         elif t[0] == "opt":
             info["opt"] = t[1]
+            info["options"] = dict(x.split("=", 1) for x in t[2:] if "=" in x)
+            t = [x for x in t if "=" not in x]
             if len(t) > 2: info["lambda"] = int(struct.unpack("<d", struct.pack("<Q", int(t[2][1:], 16)))[0])
         elif t[0] == "run": info["kind"], info["steps"] = "run", int(t[2])
-        elif t[0] in ("cmatrace", "ecmatrace", "cmsatrace", "cemtrace"):
+        elif t[0] in ("cmatrace", "ecmatrace", "cmsatrace", "cemtrace", "vdcmatrace"):
             info["kind"], info["steps"] = "trace", int(t[2])
         elif t[0] == "simplexrun": info["kind"], info["steps"], info["opt"] = "trace", int(t[1]), "simplex"
-        elif t[0] == "coeffs": info["opt"], info["n"], info["lambda"] = t[1], int(t[2]), int(t[3])
+        elif t[0] == "coeffs":
+            info["opt"], info["n"], info["lambda"] = t[1], int(t[2]), int(t[3])
+            info["options"] = dict(x.split("=", 1) for x in t[6:] if "=" in x)
     return info
 
 
@@ -257,6 +532,7 @@ class Res:
     def __init__(self):
         self.ok, self.crash, self.oracle, self.diff_at, self.why = True, False, [], None, ""
         self.impl, self.model, self.stderr = [], [], ""
+        self.bad_lines = set()      # indices of the op lines that failed (oracle tag or model mismatch)
 
 
 def run_case(ctx, hcmd, dcmd, ops, timeout=600, stats=None):
@@ -276,13 +552,16 @@ def run_case(ctx, hcmd, dcmd, ops, timeout=600, stats=None):
         if o.startswith("obj "): lastobj = o[4:]
         line = r.impl[i] if i < len(r.impl) else ""
         if "!oracle" in line:
+            r.bad_lines.add(i)
             r.oracle.append(line.split(" !oracle")[0][:200] + " ... " + line[line.index("!oracle"):][:300]); r.ok = False
         payload = line.split(" !oracle")[0]
+        m_pd = re.search(r" pd-undecided=(\d+)", payload)
+        if m_pd and stats is not None: stats["cma_steps_pd_undecided"] = stats.get("cma_steps_pd_undecided", 0) + int(m_pd.group(1))
         if o.startswith("coeffs"):
-            dops.append(o); expect.append(("equal", payload))
+            dops.append(" ".join(x for x in o.split() if "=" not in x)); expect.append(("equal", payload))
         elif o.startswith("cmatrace") and payload.startswith("trace"):
             dops.append("xtrace " + payload); expect.append(("verdict", "cma"))
-        elif o.split()[0] in ("ecmatrace", "cmsatrace", "cemtrace") and payload.startswith("trace"):
+        elif o.split()[0] in ("ecmatrace", "cmsatrace", "cemtrace", "vdcmatrace") and payload.startswith("trace"):
             dops.append("x" + o.split()[0][:-5] + " " + payload); expect.append(("verdict", o.split()[0][:-5]))
         elif o.startswith("simplexrun") and payload.startswith("simplex"):
             t = o.split()
@@ -298,7 +577,7 @@ def run_case(ctx, hcmd, dcmd, ops, timeout=600, stats=None):
             if stats is not None: stats["coeff_lines"] = stats.get("coeff_lines", 0) + 1
             if got != want:
                 if r.diff_at is None: r.diff_at, r.why = i, "coefficients-differ"
-                r.ok = False
+                r.ok = False; r.bad_lines.add(i)
         elif ex == "verdict":
             m = re.match(r"ok gens=(\d+) bits=(\d+) tol=(\d+) ties=(\d+)", got)
             if m and stats is not None:
@@ -307,7 +586,7 @@ def run_case(ctx, hcmd, dcmd, ops, timeout=600, stats=None):
                 stats["steps_skipped_unstable_ties"] = stats.get("steps_skipped_unstable_ties", 0) + int(m.group(4))
             if not m:
                 if r.diff_at is None: r.diff_at, r.why = i, "update-differs:" + got.replace(" ", "-")[:60]
-                r.ok = False
+                r.ok = False; r.bad_lines.add(i)
     return r
 
 
@@ -325,6 +604,23 @@ def classify(ops, res):
     if info["opt"] == "cma" and info["box"] and info["kind"] == "run" and tags and set(tags) <= {"covariance-not-positive-definite", "exception"} \
             and (not res.oracle or "exception" not in tags or "eigendecomposition" in res.oracle[0]):
         return ("F15:cma-softbox-covariance-degenerates", f"CMA with a feasibility box (optimum on the boundary): covariance loses positive definiteness / eigensolver fails; ops {ops}")
+    if info["opt"] == "simplex" and info["kind"] == "run" and tags:
+        # F16: init starts from the magic best value 1e100.  Unscaled objective: only the run on 2^340 f is affected (empty reported
+        # point in that run, different reported points); objective scaled beyond 1e100: the reported pair is stale in every run
+        txt = " ".join(res.oracle)
+        if info["scale"] < 1e90:
+            f16 = set(tags) <= {"reported-point-has-wrong-dimension", "not-rank-invariant-at-huge-values"} and "not-rank-invariant-at-huge-values" in tags \
+                and len(re.findall(r"reported-point-has-wrong-dimension", txt)) == len(re.findall(r"reported-point-has-wrong-dimension run=rescaled4", txt))
+        else:
+            f16 = set(tags) <= {"reported-point-has-wrong-dimension", "value-not-f-of-closest-feasible-point", "reused-object-different-run",
+                                "reinitialised-object-different-run", "not-rank-invariant"} and \
+                ("reported-point-has-wrong-dimension" in tags or "value-not-f-of-closest-feasible-point" in tags)
+        if f16:
+            return ("F16:simplex-init-magic-best-value", f"SimplexDownhill::init keeps m_best at (stale point, 1e100) when every vertex value is >= 1e100 ({res.oracle[0][-200:]}); ops {ops}")
+    if info["opt"] == "cma" and info["kind"] == "run" and not info["box"] and info["lambda"] >= 30 and info["lambda"] >= 10 * max(info["n"], 1) and info["steps"] >= 60 \
+            and tags and set(tags) <= {"step-size-not-positive", "exception"} and ("exception" not in tags or any("eigendecomposition" in l for l in res.oracle)) \
+            and not any(k in info["options"] for k in ("lb", "mid", "cov0")):
+        return ("F17:cma-covariance-collapses-after-exact-convergence", f"CMA (population >= 10 n) keeps running after exact convergence: C collapses, the stability clamp divides by 0 (sigma = inf), eigensolver throws ({res.oracle[0][-160:]}); ops {ops}")
     if info["opt"] == "cma" and "covariance-not-symmetric" in tags:
         return ("F13:cma-covariance-asymmetry", f"CMA covariance matrix is not symmetric beyond rounding ({res.oracle[0][-150:]}); ops {ops}")
     if tags:
@@ -332,7 +628,7 @@ def classify(ops, res):
     return f"mismatch:{res.why}:{info['opt']}", f"model and implementation disagree ({res.why}) at line {res.diff_at} of ops {ops}"
 
 
-def correspond(ctx, name, cases, hcmd, dcmd, max_report=6):
+def correspond(ctx, name, cases, hcmd, dcmd, max_report=8):
     t = time.time()
     stats = {}
     all_ops = [l for c in cases for l in c]
@@ -344,13 +640,31 @@ def correspond(ctx, name, cases, hcmd, dcmd, max_report=6):
     if big.ok:
         ctx.log(f"{name}: {len(cases)} cases / {len(all_ops)} ops agree ({time.time()-t:.1f}s) {stats}")
         return 0
-    with ThreadPoolExecutor(max_workers=4) as ex:
-        results = list(ex.map(lambda c: run_case(ctx, hcmd, dcmd, c), cases))
-    failing = [(c, r) for c, r in zip(cases, results) if not r.ok]
+    # every case starts with its own `obj` / `opt` lines and every run seeds its generators, so the cases of the batch are
+    # independent: a complete batch attributes each failing line to its case and only those cases are run again on their
+    # own; an incomplete batch (crash, timeout) or a failure that does not reproduce alone falls back to running every case
+    failing = []
+    if not big.crash and len(big.impl) == len(all_ops) and len(big.model) >= len(all_ops) and big.bad_lines:
+        owner, k = [], 0
+        for ci, c in enumerate(cases):
+            owner += [ci] * len(c)
+        cand = sorted({owner[i] for i in big.bad_lines if i < len(owner)})
+        with ThreadPoolExecutor(max_workers=4) as ex:
+            results = list(ex.map(lambda ci: run_case(ctx, hcmd, dcmd, cases[ci]), cand))
+        failing = [(cases[ci], r) for ci, r in zip(cand, results) if not r.ok]
+        if len(failing) != len(cand):
+            ctx.log(f"{name}: {len(cand) - len(failing)} case(s) fail in the batch but not alone; running every case on its own")
+            failing = []
+    if not failing:
+        with ThreadPoolExecutor(max_workers=4) as ex:
+            results = list(ex.map(lambda c: run_case(ctx, hcmd, dcmd, c), cases))
+        failing = [(c, r) for c, r in zip(cases, results) if not r.ok]
     if not failing:
         failing = [(all_ops, big)]
     ctx.log(f"{name}: {len(failing)} of {len(cases)} cases FAIL")
     seen = set()
+    for c, r in failing[:12]:
+        ctx.log(f"{name}: failing case {classify(c, r)[0]}: {[o[:160] for o in c[-3:]]}")
     for c, r in failing:
         key, what = classify(c, r)
         if key in seen:
@@ -375,7 +689,7 @@ def correspond(ctx, name, cases, hcmd, dcmd, max_report=6):
                   "model_output": [l[:600] for l in rs.model[-6:]], "first_diff_line": rs.diff_at, "why": rs.why,
                   "oracle": rs.oracle[:5], "crash": rs.crash, "stderr_tail": rs.stderr[-1500:]}
         ctx.violation(key, replay, found_input=found, what=classify(small, rs)[1])
-        if len(seen) >= max_report:
+        if len([k for k in seen if not re.match(r"F\d+:", k)]) >= max_report:     # known findings do not use up the report budget
             break
     return len(failing)
 
@@ -420,6 +734,8 @@ def run(ctx):
     ncoef, nrun, maxsteps, ntrace, tsteps, nconv, csteps = (160, 110, 40, 30, 12, 10, 400) if ctx.quick else (2000, 900, 150, 300, 40, 80, 600)
     cases = list(corpus)
     cases += [gen_coeff_case(r) for _ in range(ncoef)]
+    for rep in range(1 if ctx.quick else 5):
+        cases += gen_coeff_axis_cases(r)
     for _ in range(nrun):
         ops, cls = gen_run_case(r, maxsteps)
         cases.append(ops)
@@ -428,6 +744,11 @@ def run(ctx):
         cases.append(gen_directed_case(r)); ctx.hist("population_class", "directed-or-high-dim"); ctx.hist("x0_class", "far+small-sigma | n=20,40")
     for _ in range(12 if ctx.quick else 60):
         cases.append(gen_reuse_case(r)); ctx.hist("population_class", "default"); ctx.hist("x0_class", "reuse n>=30")
+    for rep in range(1 if ctx.quick else 4):
+        for ops, cell in gen_axis_cases(r, 12 if ctx.quick else 40):
+            cases.append(ops); ctx.hist("configuration_cell", cell)
+            ctx.hist("population_class", "axis-sweep"); ctx.hist("x0_class", "axis-sweep")
+        cases += gen_axis_traces(r, tsteps if ctx.quick else 30)
     cases += [gen_trace_case(r, tsteps) for _ in range(ntrace)]
     cases += gen_model_traces(r, ctx.quick)
     cases += [gen_conv_case(r, csteps) for _ in range(nconv)]
@@ -435,17 +756,22 @@ def run(ctx):
         i = case_info(c)
         ctx.hist("case_kind", i["kind"]); ctx.hist("optimizer", i["opt"] + ":" + i["kind"])
         ctx.hist("dimension", i["n"])
+        for k, v in i["options"].items():
+            ctx.hist("configuration_axis", "%s:%s=%s" % (i["opt"], k, v if k in ("rng", "init", "set", "cov0", "active", "sig", "var") else
+                                                         ("const" if v.startswith("const") else "lin" if v.startswith("lin") else v.split(":")[1] if k == "mid" else "set")))
         if i["lambda"]:
             ctx.hist("lambda_over_n", "default" if not i["lambda"] else min(i["lambda"] // max(i["n"], 1), 64) // 4 * 4)
         if i["kind"] != "coeffs":
-            ctx.hist("objective", i["obj"] + ("+box" if i["box"] else ""))
+            ctx.hist("objective", i["obj"] + ("+box" if i["box"] else "") + ("*2^340" if i["scale"] > 1 else ""))
             ctx.hist("steps", min(i["steps"] // 20 * 20, 400))
             for o in c:
-                if o.startswith("opt ") and len(o.split()) >= 6:
-                    ctx.hist("initial_sigma", struct.unpack("<d", struct.pack("<Q", int(o.split()[5][1:], 16)))[0])
-                    ctx.hist("recombination", int(struct.unpack("<d", struct.pack("<Q", int(o.split()[4][1:], 16)))[0]))
+                ot = [x for x in o.split() if "=" not in x]
+                if o.startswith("opt ") and len(ot) >= 6:
+                    ctx.hist("initial_sigma", struct.unpack("<d", struct.pack("<Q", int(ot[5][1:], 16)))[0])
+                    ctx.hist("recombination", int(struct.unpack("<d", struct.pack("<Q", int(ot[4][1:], 16)))[0]))
     ctx.cov["evaluations"] = len(cases)
-    ctx.cov["runs_per_run_case"] = "7 (fresh, fresh, re-initialised used object, 3 exact rescalings; same seed)"
+    ctx.cov["runs_per_run_case"] = ("9 (fresh, fresh, re-initialised used object, object used on another problem before, 3 exact rescalings + scaling by 2^340; same seed; "
+                                    "with rng=private the process-global generator is in a different state in every run)")
     ctx.cov["distinct_nontrivial"] = len({"\n".join(c) for c in cases if case_info(c)["kind"] == "coeffs" or case_info(c)["steps"] >= 5})
     ctx.sample({"ops": cases[len(cases) // 2][:4]})
     correspond(ctx, "K-C11", cases, [exe], [drv])
